@@ -37,15 +37,25 @@
 (* decides, the namespace only where the field's tag names one - none of   *)
 (* the endpoint fields does).  Which elements reach an endpoint slice is   *)
 (* thus derived; the statement's requirement applies to every element that *)
-(* does, whatever its namespace.  Named deviations                         *)
+(* does, whatever its namespace.  The ATTRIBUTES of the start element are  *)
+(* a dimension too (AttrForms): the Location / ResponseLocation attribute  *)
+(* once, unprefixed - or next to / replaced by an attribute of the same    *)
+(* local name in a FOREIGN namespace (schema-valid: anyAttribute ##other). *)
+(* DecodeAttrs models how encoding/xml fills a `Location,attr` field: by   *)
+(* local name (the tag names no namespace), the LAST occurrence winning -  *)
+(* so which value reaches the field is derived, and the statement applies  *)
+(* to that value.  Named deviations                                        *)
 (*   PrefixCheckOnly   the location is judged by the text before its first *)
 (*                     colon only (no URL parse)                           *)
 (*   ForeignNamespaceUnchecked   the location check is skipped for an      *)
 (*                     element whose namespace is not the metadata one     *)
 (*                     (the element is still collected)                    *)
+(*   ChecksFirstAttribute   the location check runs on the START ELEMENT   *)
+(*                     (first attribute with the local name, in place)     *)
+(*                     before the struct is decoded from it                *)
 (* are FALSE in the registered configurations and TRUE in                  *)
-(* HtmlForms_C14dev.cfg / HtmlForms_C14devns.cfg, where TLC must refute    *)
-(* RejectsHostile.                                                         *)
+(* HtmlForms_C14dev.cfg / HtmlForms_C14devns.cfg / HtmlForms_C14devattr.cfg*)
+(* where TLC must refute RejectsHostile.                                   *)
 (***************************************************************************)
 EXTENDS Integers, Sequences, FiniteSets, TLC, Json
 
@@ -57,7 +67,9 @@ CONSTANTS MaxLen,     \* bound on the length of hostile class-strings (2 quick /
           Descs,      \* part "meta": the descriptor types enumerated (all five in the registered configurations)
           BaseCases,  \* part "meta": TRUE = the full product element x attribute x binding x location class, written with the default namespace
           NsSet,      \* part "meta": the other lexical forms of the endpoint element that are enumerated ...
-          NsWide      \* ... over the covering subset of bindings x location classes (FALSE) or over a wide one (TRUE)
+          NsWide,     \* ... over the covering subset of bindings x location classes (FALSE) or over a wide one (TRUE)
+          ChecksFirstAttribute,   \* named deviation of part "meta" (FALSE: the implementation)
+          AttrForms   \* part "meta": the other forms of the Location / ResponseLocation ATTRIBUTE that are enumerated
 
 (***************************************************************************)
 (*                          Part "form": alphabet                          *)
@@ -304,6 +316,38 @@ NoName == XName("?", "?")
 FieldTag(e) == XName("", e.elem)
 Takes(tag, name) == tag.local = name.local /\ (tag.space = "" \/ tag.space = name.space)
 
+(* The attributes of the endpoint's start element that have the local name Location / ResponseLocation, in document *)
+(* order.  The attribute under test (c.attr, value: the case's location class) is written in one of these forms;   *)
+(* "xa" is a prefix the root binds to OtherNs (EndpointType: anyAttribute namespace="##other" - schema-valid).     *)
+(*   single            Location="CASE"                              (every document of the cases above)            *)
+(*   plainThenForeign  Location="harmless" xa:Location="CASE"                                                      *)
+(*   foreignThenPlain  xa:Location="CASE" Location="harmless"                                                      *)
+(*   foreignOnly       xa:Location="CASE"                                                                          *)
+AttrFormsAll == {"single", "plainThenForeign", "foreignThenPlain", "foreignOnly"}
+At(prefix, local, v) == [prefix |-> prefix, local |-> local, v |-> v]
+AttrsWritten(x) ==
+  LET case == V(x.scheme, x.shape)
+      tgt  == CASE x.at = "single"           -> <<At("", x.attr, case)>>
+                [] x.at = "plainThenForeign" -> <<At("", x.attr, Benign), At("xa", x.attr, case)>>
+                [] x.at = "foreignThenPlain" -> <<At("xa", x.attr, case), At("", x.attr, Benign)>>
+                [] x.at = "foreignOnly"      -> <<At("xa", x.attr, case)>>
+  IN IF x.attr = "Location" THEN tgt ELSE <<At("", "Location", Benign)>> \o tgt
+\* encoding/xml Decoder.translate on an attribute name: an unprefixed attribute is in NO namespace (the default
+\* namespace does not apply to attributes); a prefix is looked up as for elements
+AttrScope(nf) == [FormOf(nf).scope EXCEPT ![1] = @ \cup {D("xa", OtherNs)}]
+AttrSpace(nf, prefix) == IF prefix = "" THEN "" ELSE Lookup(AttrScope(nf), 3, prefix)
+StartAttrs(x) == LET w == AttrsWritten(x) IN
+                 [i \in 1..Len(w) |-> [space |-> AttrSpace(x.ns, w[i].prefix), local |-> w[i].local, v |-> w[i].v]]
+\* metadata.go: `xml:"Location,attr"`, `xml:"ResponseLocation,attr"` - the tags name no namespace.  encoding/xml
+\* (unmarshal, struct case) walks the attributes in document order and stores each one in the attr field that takes
+\* it - by local name, by namespace only where the tag names one: the LAST such attribute is what the field holds.
+AttrTag(name) == XName("", name)
+Taken(as, name) == { i \in 1..Len(as) : Takes(AttrTag(name), XName(as[i].space, as[i].local)) }
+FieldVal(as, name) == LET idx == Taken(as, name) IN
+                      IF idx = {} THEN AbsentV ELSE as[CHOOSE i \in idx : \A j \in idx : j <= i].v
+FirstIdx(as, name) == LET idx == { i \in 1..Len(as) : as[i].local = name } IN
+                      IF idx = {} THEN 0 ELSE CHOOSE i \in idx : \A j \in idx : i <= j
+
 (* net/url.Parse on a representative of the class, stage by stage (url.go parse / getScheme /           *)
 (* parseAuthority / parseHost / setPath / setFragment).  Result: does it fail, and the scheme it reads. *)
 UOk(sch) == [fails |-> FALSE, scheme |-> sch]
@@ -355,8 +399,9 @@ VARIABLES c,        \* the abstract case
           dom,      \* form: token sequence
           loc, rloc, result,   \* meta: the two attribute values and the parse verdict
           xname,    \* meta: the expanded name of the endpoint element (after ResolveName)
-          slice     \* meta: the struct field (= endpoint slice) the element is decoded into, "none" when no field takes it
-vars == <<c, pc, env, out, dom, loc, rloc, result, xname, slice>>
+          slice,    \* meta: the struct field (= endpoint slice) the element is decoded into, "none" when no field takes it
+          start     \* meta: the Location / ResponseLocation attributes of the start element (expanded names, document order)
+vars == <<c, pc, env, out, dom, loc, rloc, result, xname, slice, start>>
 
 BenignStr == <<"plain">>
 FormCases ==
@@ -366,7 +411,8 @@ FormCaseOK(x) == x.slot \in SlotsOf(x.form) /\ (x.base => x.slot = "URL")
 \* location classes: every scheme class as a plain value, the http-ish ones with every other shape as well
 LocClasses == { V(sc, "plain") : sc \in Schemes } \cup { V(sc, sh) : sc \in HttpSchemes, sh \in Shapes \ {"plain"} }
 EnumElements == { e \in Elements : e.desc \in Descs }
-MetaCase(e, a, b, lc, nf) == [part |-> "meta", el |-> e, attr |-> a, binding |-> b, scheme |-> lc.scheme, shape |-> lc.shape, ns |-> nf]
+MetaCaseA(e, a, b, lc, nf, af) == [part |-> "meta", el |-> e, attr |-> a, binding |-> b, scheme |-> lc.scheme, shape |-> lc.shape, ns |-> nf, at |-> af]
+MetaCase(e, a, b, lc, nf) == MetaCaseA(e, a, b, lc, nf, "single")
 MetaCasesBase ==
   { MetaCase(e, a, b, lc, "default") : e \in EnumElements, a \in MetaAttrs, b \in Bindings, lc \in LocClasses }
 \* the other lexical forms: a covering subset of binding x location class
@@ -381,8 +427,15 @@ NsCover ==
        \cup ({"redirect"} \X NsShapes)
 MetaCasesNs ==
   { MetaCase(e, a, bl[1], bl[2], nf) : e \in EnumElements, a \in MetaAttrs, bl \in NsCover, nf \in NsSet \ {"default"} }
+\* the other forms of the attribute: every binding x the hostile values {script scheme, data, relative}; the element
+\* itself is written as in the base cases
+AttrCover == Bindings \X {V("javascript", "plain"), V("data", "plain"), V("relPath", "plain")}
+MetaCasesAttr ==
+  { MetaCaseA(e, a, bl[1], bl[2], "default", af) :
+      e \in EnumElements, a \in MetaAttrs, bl \in AttrCover, af \in AttrForms \ {"single"} }
+\* (MetaCasesAttr is a disjunct of Init on its own: as a third operand of this union it made TLC spend 11 s more on the initial states)
 MetaCases == (IF BaseCases THEN MetaCasesBase ELSE {}) \cup MetaCasesNs
-ASSUME NsSet \subseteq NsForms /\ Descs \subseteq { e.desc : e \in Elements }
+ASSUME NsSet \subseteq NsForms /\ Descs \subseteq { e.desc : e \in Elements } /\ AttrForms \subseteq AttrFormsAll
 
 EnvOf(x) == [sl \in AllSlots |-> IF sl = x.slot THEN (IF x.base THEN <<"base">> \o x.s ELSE x.s)
                                  ELSE IF sl = "URL" THEN <<"base">> ELSE BenignStr]
@@ -390,35 +443,60 @@ EnvOf(x) == [sl \in AllSlots |-> IF sl = x.slot THEN (IF x.base THEN <<"base">> 
 InitForm == /\ "form" \in Parts
             /\ c \in {x \in FormCases : FormCaseOK(x)}
             /\ env = EnvOf(c) /\ pc = "render" /\ out = <<>> /\ dom = <<>>
-            /\ loc = AbsentV /\ rloc = AbsentV /\ result = "n/a" /\ xname = NoName /\ slice = ""
-InitMeta == /\ "meta" \in Parts
-            /\ c \in MetaCases
+            /\ loc = AbsentV /\ rloc = AbsentV /\ result = "n/a" /\ xname = NoName /\ slice = "" /\ start = <<>>
+InitMeta(cases) ==
+            /\ "meta" \in Parts
+            /\ c \in cases
             /\ pc = "resolve" /\ env = <<>> /\ out = <<>> /\ dom = <<>> /\ xname = NoName /\ slice = ""
-            /\ loc  = (IF c.attr = "Location" THEN V(c.scheme, c.shape) ELSE Benign)          \* aux decoded by encoding/xml
-            /\ rloc = (IF c.attr = "ResponseLocation" THEN V(c.scheme, c.shape) ELSE AbsentV)
+            /\ start = <<>> /\ loc = AbsentV /\ rloc = AbsentV      \* nothing read, nothing decoded yet
             /\ result = "none"
-Init == InitForm \/ InitMeta
+Init == InitForm \/ InitMeta(MetaCases) \/ InitMeta(MetaCasesAttr)
 
 \* tmpl.Execute
 DoRender   == /\ pc = "render" /\ out' = Render(Template(c.form), env) /\ pc' = "tokenize"
-              /\ UNCHANGED <<c, env, dom, loc, rloc, result, xname, slice>>
+              /\ UNCHANGED <<c, env, dom, loc, rloc, result, xname, slice, start>>
 \* the browser
 DoTokenize == /\ pc = "tokenize" /\ dom' = Tokenize(out) /\ pc' = "done"
-              /\ UNCHANGED <<c, env, out, loc, rloc, result, xname, slice>>
+              /\ UNCHANGED <<c, env, out, loc, rloc, result, xname, slice, start>>
 
-\* encoding/xml: the start tag of the endpoint element is read and its name translated
+\* encoding/xml: the start tag of the endpoint element is read and its name and those of its attributes translated
 ResolveName ==
   /\ pc = "resolve" /\ pc' = "match"
   /\ xname' = XName(SpaceOf(c.ns), c.el.elem)
+  /\ start' = StartAttrs(c)
   /\ UNCHANGED <<c, env, out, dom, loc, rloc, result, slice>>
 \* encoding/xml: the descriptor struct's fields are searched for one that takes the element; an element no field
 \* takes is skipped (nothing of it is stored)
 MatchField ==
   /\ pc = "match"
   /\ IF Takes(FieldTag(c.el), xname)
-       THEN pc' = "checkLoc" /\ slice' = c.el.elem /\ UNCHANGED <<loc, rloc, result>>
+       THEN pc' = (IF ChecksFirstAttribute THEN "checkStart" ELSE "decode") /\ slice' = c.el.elem /\ UNCHANGED <<loc, rloc, result>>
        ELSE pc' = "done" /\ slice' = "none" /\ loc' = AbsentV /\ rloc' = AbsentV /\ result' = "ok"
-  /\ UNCHANGED <<c, env, out, dom, xname>>
+  /\ UNCHANGED <<c, env, out, dom, xname, start>>
+
+\* metadata.go:324 / :362   d.DecodeElement(aux, &start): encoding/xml fills the attr fields of the endpoint struct
+\* from the start element - each field from the LAST attribute it takes (FieldVal)
+DecodeAttrs ==
+  /\ pc = "decode"
+  /\ loc' = FieldVal(start, "Location") /\ rloc' = FieldVal(start, "ResponseLocation")
+  /\ IF ChecksFirstAttribute THEN pc' = "done" /\ result' = "ok"        \* the deviation has checked already
+                              ELSE pc' = "checkLoc" /\ UNCHANGED result
+  /\ UNCHANGED <<c, env, out, dom, xname, slice, start>>
+\* deviation ChecksFirstAttribute: checkEndpointLocation is applied to the start element - to the FIRST attribute whose
+\* local name is Location (a missing one is checked as ""), then to the first one named ResponseLocation (skipped when
+\* absent or empty) - the result written back in place, and only then is the struct decoded from the start element
+CheckStartElement ==
+  /\ pc = "checkStart"
+  /\ LET i    == FirstIdx(start, "Location")
+         j    == FirstIdx(start, "ResponseLocation")
+         rl   == CheckEL(c.binding, IF i = 0 THEN EmptyV ELSE start[i].v)
+         skip == j = 0 \/ (j # 0 /\ start[j].v = EmptyV)
+         rr   == IF skip THEN [err |-> FALSE, v |-> EmptyV] ELSE CheckEL(c.binding, start[j].v) IN
+       IF rl.err \/ rr.err THEN pc' = "done" /\ result' = "error" /\ UNCHANGED start
+       ELSE /\ pc' = "decode" /\ UNCHANGED result
+            /\ start' = [k \in 1..Len(start) |-> IF k = i THEN [start[k] EXCEPT !.v = rl.v]
+                                                  ELSE IF k = j /\ ~skip THEN [start[k] EXCEPT !.v = rr.v] ELSE start[k]]
+  /\ UNCHANGED <<c, env, out, dom, loc, rloc, xname, slice>>
 
 \* metadata.go:301 / :339   m.Location, err = checkEndpointLocation(m.Binding, m.Location)
 \* (deviation ForeignNamespaceUnchecked: UnmarshalXML returns before the checks when the element is not in MdNs)
@@ -429,7 +507,7 @@ CheckLocation ==
        IF Unchecked THEN pc' = "done" /\ result' = "ok" /\ UNCHANGED <<loc, rloc>>
        ELSE IF r.err THEN pc' = "done" /\ result' = "error" /\ UNCHANGED <<loc, rloc>>
        ELSE pc' = "checkRLoc" /\ loc' = r.v /\ UNCHANGED <<rloc, result>>
-  /\ UNCHANGED <<c, env, out, dom, xname, slice>>
+  /\ UNCHANGED <<c, env, out, dom, xname, slice, start>>
 \* metadata.go:305 (Endpoint: skipped when the string is empty -- named deviation
 \* EndpointSkipsEmptyResponseLocation) / :343 (IndexedEndpoint: skipped when the pointer is nil,
 \* a blanked result is stored as nil)
@@ -441,9 +519,9 @@ CheckResponseLocation ==
        ELSE IF r.err THEN pc' = "done" /\ result' = "error" /\ UNCHANGED rloc
        ELSE /\ pc' = "done" /\ result' = "ok"
             /\ rloc' = (IF r.v = Blank /\ c.el.kind = "IE" THEN AbsentV ELSE r.v)
-  /\ UNCHANGED <<c, env, out, dom, loc, xname, slice>>
+  /\ UNCHANGED <<c, env, out, dom, loc, xname, slice, start>>
 
-Next == DoRender \/ DoTokenize \/ ResolveName \/ MatchField \/ CheckLocation \/ CheckResponseLocation
+Next == DoRender \/ DoTokenize \/ ResolveName \/ MatchField \/ DecodeAttrs \/ CheckStartElement \/ CheckLocation \/ CheckResponseLocation
 Spec == Init /\ [][Next]_vars
 
 (***************************************************************************)
@@ -528,13 +606,20 @@ Case == V(c.scheme, c.shape)
 \* metadata element (XML Namespaces: its expanded name is in MdNs, by whatever prefix or declaration): whether an
 \* element of another namespace is an endpoint at all is left open - dropping it is as safe as keeping it.
 GenuineMd == SpaceOf(c.ns) = MdNs
+\* "Endpoint locations OBTAINED BY PARSING": the requirement is on the value that reaches the parsed endpoint's field.
+\* Where the start element carries more than one attribute with the local name (AttrForms), which of them that is
+\* is derived from the document as written (FieldVal: encoding/xml's rule); the case's value when it is the one,
+\* the harmless companion otherwise ("absent" cannot happen: every form writes at least one).  The duty to PRESERVE
+\* is not extended to these forms: the statement does not say which of two like-named attributes is the location.
+Arrives == FieldVal(StartAttrs(c), c.attr)
 MetaClass ==
   IF c.scheme = "empty" THEN "DontCare"                                   \* nothing to protect
-  ELSE IF ~HttpPrefix(Case) THEN "MustReject"                             \* script schemes, blanks / controls in front, no scheme
-  ELSE IF NotUrl(Case) THEN "MustReject"                                  \* the right prefix, but not a URL
+  ELSE IF ~HttpPrefix(Arrives) THEN "MustReject"                          \* script schemes, blanks / controls in front, no scheme
+  ELSE IF NotUrl(Arrives) THEN "MustReject"                               \* the right prefix, but not a URL
   ELSE IF c.binding \notin Known THEN "DontCare"                          \* blanked, says the statement; harmless if kept
-  ELSE IF Lax(Case) \/ c.scheme = "httpMixed" THEN "DontCare"             \* oddities the statement does not rule on
+  ELSE IF Lax(Arrives) \/ Arrives.scheme = "httpMixed" THEN "DontCare"    \* oddities the statement does not rule on
   ELSE IF ~GenuineMd THEN "DontCare"                                      \* a good location on an element outside the metadata namespace
+  ELSE IF c.at # "single" THEN "DontCare"                                 \* a good location next to a like-named attribute
   ELSE "MustAccept"                                                       \* a well-formed http(s) URL on a standard binding
 Required == CASE MetaClass = "MustReject" -> "error-or-blank"
               [] MetaClass = "MustAccept" -> "preserved"
@@ -542,7 +627,7 @@ Required == CASE MetaClass = "MustReject" -> "error-or-blank"
 
 SurvivorsSafe  == Done /\ IsMeta /\ result = "ok" => SafeValue(loc) /\ SafeValue(rloc)
 RejectsHostile == Done /\ IsMeta /\ MetaClass = "MustReject" => result = "error" \/ Target \in Blankish
-AcceptsGood    == Done /\ IsMeta /\ MetaClass = "MustAccept" => result = "ok" /\ Target = Case
+AcceptsGood    == Done /\ IsMeta /\ MetaClass = "MustAccept" => result = "ok" /\ Target = Case /\ Arrives = Case
 UnknownBlanked == Done /\ IsMeta /\ c.binding \notin Known => result = "ok" /\ loc = (IF slice = "none" THEN AbsentV ELSE Blank) /\ rloc \in Blankish
 \* the derivation itself: in this library every endpoint element written inside a descriptor reaches its slice,
 \* in whatever namespace it is (the field tags name no namespace) - so none is exempt from the requirement
@@ -555,6 +640,7 @@ FormVec == [part |-> "form", form |-> c.form, slot |-> c.slot, base |-> c.base, 
             pred |-> [action |-> IF Unsafe(env["URL"]) THEN "filter" ELSE "input", ok |-> StructureOK]]
 MetaVec == [part |-> "meta", desc |-> c.el.desc, elem |-> c.el.elem, kind |-> c.el.kind, attr |-> c.attr,
             binding |-> c.binding, scheme |-> c.scheme, shape |-> c.shape, ns |-> c.ns, space |-> xname.space, slice |-> slice,
+            at |-> c.at, arrives |-> (IF Arrives = Case THEN "case" ELSE IF Arrives = Benign THEN "harmless" ELSE "other"),
             class |-> MetaClass, required |-> Required,
             pred |-> [result |-> result, value |-> IF result = "error" THEN "n/a" ELSE IF Target \in Blankish THEN "blank" ELSE "kept"]]
 Emit == Done => PrintT(<<"VEC", ToJson(IF IsForm THEN FormVec ELSE MetaVec)>>)
